@@ -58,6 +58,7 @@ func checkC12(r *core.Run) {
 	c12Sort(r, p)
 	c12Admit(r, p)
 	c12Closure(r, p)
+	c12OutputsOfSameTx(r, p, "R-C12-owner")
 	c12PkgCache(r, p)
 	// a transaction is unlinked from the pool (its inputs released, its map entry removed) before the fee
 	// packages are updated: the package update rebuilds membership by walking the spent-outputs map, and would
@@ -997,4 +998,57 @@ func c12Admit(r *core.Run, p *core.Program) {
 	})
 	r.Check(okFee, rule, "fee-recorded", p.Pos(pt.Pos()), "the recorded fee is total inputs minus total outputs", "the fee recorded for a pooled transaction is not inputs minus outputs")
 	r.Count("admission_function", 1)
+}
+
+// c12OutputsOfSameTx: the pool finds the children of a transaction by looking up (its id, output index) in
+// the spent-outputs map for every output index of THAT transaction.  Wherever such a key is built from a
+// loop index, the loop has to run over the outputs of the transaction whose id goes into the key - a loop
+// over another list (the inputs, say) visits too few or too many indices, and children hanging on the
+// remaining outputs keep stale in-pool-input flags.
+func c12OutputsOfSameTx(r *core.Run, p *core.Program, rule string) {
+	n := 0
+	var bad []string
+	for _, fn := range p.ModuleFuncs() {
+		if !strings.Contains(core.FuncName(fn), "client/txpool.") {
+			continue
+		}
+		for _, c := range an.CallsTo(fn, false, "lib/btc.UIdx") {
+			a := c.Common().Args
+			idx := c17StripConv(a[1])
+			if len(an.PhiLeaves(idx)) == 0 {
+				continue
+			}
+			isLoop := false
+			switch x := idx.(type) {
+			case *ssa.Phi:
+				isLoop = true
+			case *ssa.BinOp:
+				_, isLoop = x.X.(*ssa.Phi)
+			}
+			if !isLoop {
+				continue
+			}
+			n++
+			pos := p.Pos(an.InstrPos(c.(ssa.Instruction)))
+			h := an.Expr(a[0]) // &X.Hash.Hash[:]
+			base := strings.TrimSuffix(strings.TrimPrefix(h, "&"), ".Hash.Hash[:]")
+			if base == h {
+				bad = append(bad, "the id in the key built at "+pos+" ("+clip(h, 60)+") is not a transaction's hash")
+				continue
+			}
+			want := "(" + an.Expr(idx) + " < builtin.len(" + base + ".TxOut))"
+			blk := c.(ssa.Instruction).Block()
+			if !an.HasCond(an.DomConds(blk), want, true) {
+				got := "no bound"
+				for _, dc := range an.DomConds(blk) {
+					if strings.HasPrefix(dc.Cond, "("+an.Expr(idx)+" < ") {
+						got = dc.Cond
+					}
+				}
+				bad = append(bad, "the output index of the key built at "+pos+" in "+core.FuncName(fn)+" runs under "+clip(got, 90)+", not over the outputs of "+base)
+			}
+		}
+	}
+	sort.Strings(bad)
+	r.Check(len(bad) == 0 && n >= 4, rule, "children-by-every-output", "-", fmt.Sprintf("%d loops build (id, output index) keys; each runs over the outputs of the transaction whose id is used", n), strings.Join(bad, "; "))
 }
